@@ -418,6 +418,88 @@ def run_attack_case(ctx, case, rng):
 
 
 # ---------------------------------------------------------------------------
+# many tiny sends on one thread racing tiny adjusts delivered by the transport thread
+def run_adjust_race(ctx, case, rng):
+    """The out-window is updated by the application thread (charge in Channel._send's critical section) and by the
+    transport thread (_window_adjust).  A hostile peer grants window in 1-3 byte steps while one application thread
+    sends byte by byte and tries to send more than was ever granted; the interpreter's switch interval is lowered
+    in some cases (more thread switches inside the critical sections).  Ledger: bytes sent <= initial window + adjusts read."""
+    import sys
+    role = case["role"]
+    a = Attacker(role=role, rng=rng)
+    cm.watch(a.victim, a.rec, "v")
+    holder = {}
+    old_si = sys.getswitchinterval()
+    try:
+        if not a.start(auth=True):
+            ctx.inconclusive("attacker handshake failed (adjust race)")
+            return
+        a.takeover()
+        aid = 555
+        if role == "client":
+            a.send(cm.OPEN, "session", aid, case["w0"], 32768)
+            r = a.wait_inbox(lambda e: e["type"] == cm.OPEN_OK, 20)
+            if r is None:
+                ctx.inconclusive("no confirmation (adjust race)")
+                return
+            vid = cm.parse(bytes([cm.OPEN_OK]) + r["payload"])["sender"]
+            vchan = a.victim.accept(20)
+        else:
+            th = threading.Thread(target=lambda: holder.__setitem__("chan", a.victim.open_session(timeout=30)), daemon=True)
+            th.start()
+            r = a.wait_inbox(lambda e: e["type"] == cm.OPEN, 20)
+            if r is None:
+                ctx.inconclusive("no CHANNEL_OPEN (adjust race)")
+                return
+            vid = cm.parse(bytes([cm.OPEN]) + r["payload"])["sender"]
+            a.send(cm.OPEN_OK, vid, aid, case["w0"], 32768)
+            th.join(30)
+            vchan = holder.get("chan")
+        if vchan is None:
+            ctx.inconclusive("no victim channel (adjust race)")
+            return
+        vchan.settimeout(1.0)
+        done = threading.Event()
+        sent = [0]
+
+        def writer():
+            fn = vchan.send_stderr if case["stderr"] else vchan.send
+            try:
+                while sent[0] < case["attempt"]:
+                    k = fn(b"\x2a" * case["chunk"])
+                    if k <= 0:
+                        break
+                    sent[0] += k
+            except Exception:
+                pass  # window exhausted for good (socket.timeout): expected end
+            done.set()
+
+        sys.setswitchinterval(case["switch"])
+        wt = threading.Thread(target=writer, daemon=True)
+        wt.start()
+        granted = 0
+        for k in range(case["adjusts"]):
+            adj = rng.choice((1, 1, 2, 3))
+            a.send(cm.ADJUST, vid, adj)
+            granted += adj
+        sys.setswitchinterval(old_si)
+        wt.join(60)
+        if wt.is_alive():
+            ctx.inconclusive("adjust-race writer did not end")
+            return
+        pair.wait_for(lambda: a.link.quiescent(0.05), 5)
+        judge(ctx, a.rec, ("v",), case)
+        ctx.count("adjust_race_cases")
+        ctx.count("adjust_race_adjusts_read", len(a.victim_msgs("in", (cm.ADJUST,))))
+        ctx.count("adjust_race_sends", len(a.victim_msgs("out", (cm.DATA, cm.EXT))))
+        if sent[0] == case["w0"] + granted:
+            ctx.count("adjust_race_window_used_exactly")
+    finally:
+        sys.setswitchinterval(old_si)
+        a.close()
+
+
+# ---------------------------------------------------------------------------
 # extended data of non-stderr type codes mixed with stderr and normal data
 EXT_CODES = (0, 1, 2, 7, 0xFFFFFFFF)
 _T1 = bytes(0x80 | (i & 0x3F) for i in range(256))  # type-1 payload alphabet 0x80-0xBF
@@ -684,6 +766,16 @@ def run(ctx):
     cm.install()
     rng = ctx.rng
     ctx.guard(run_preempt, ctx, rng)
+    for i in range(ctx.pick(2, 12)):
+        j = i * ctx.nshards + ctx.shard
+        adj = ctx.pick(800, 3000)
+        case = dict(kind="tiny-sends-vs-tiny-adjusts", role=("client", "server")[j % 2], w0=(0, 1, 50)[j % 3], adjusts=adj,
+                    chunk=(1, 1, 2)[j % 3], stderr=j % 4 == 3, attempt=4 * adj,
+                    switch=(0.005, 0.0005, 0.00005)[j // 2 % 3])
+        before = ctx.counters.get("adjust_race_cases", 0)
+        ctx.guard(run_adjust_race, ctx, case, rng)
+        ctx.case(tuple(sorted(case.items())) + (i,), sample=case if i == 0 else None,
+                 nontrivial=ctx.counters.get("adjust_race_cases", 0) > before)
     for i in range(ctx.pick(6, 36)):
         case = gen_exttypes(rng, i * ctx.nshards + ctx.shard)
         before = ctx.counters.get("exttypes_cases", 0)
@@ -717,6 +809,9 @@ def run(ctx):
     ctx.require("window_exactly_exhausted", 5)
     ctx.require("attacker_cases", 8)
     ctx.require("transfers_complete", 10)
+    ctx.require("adjust_race_cases", 12)
+    ctx.require("adjust_race_adjusts_read", 8000)
+    ctx.require("adjust_race_sends", 6000)
     ctx.require("exttypes_cases", 36)
     ctx.require("ext_msgs_non_stderr_type_below_threshold", 200)
     ctx.require("exttypes_discarded_bytes", 200000)
